@@ -438,6 +438,8 @@ def check(chk):
         isinstance(x, ast.Call) and call_attr(x) == "isalpha" for x in ast.walk(g.node))
     chk.ob("TABLE-3", "a number without unit means seconds for secs-typed settings", ok, g.where(), construct=g.ident, text="default unit s")
 
+    _total_validators(chk, repo, cv)
+
     # ---------------------------------------------------------- SIB-6
     for tok, conv in (("ms", "string_to_ms"), ("template_ms", "string_to_ms"), ("secs", "string_to_secs"), ("template_secs", "string_to_secs")):
         fn = funcs.get(tok, (None,))[0]
@@ -462,6 +464,46 @@ def check(chk):
         base = tok[:-len("_or_token")]
         chk.ob("SIB-6", "`%s` wraps the validator of `%s`" % (tok, base), table[tok][1] is True and table[tok][0] == table.get(base, (None,))[0],
                "%s:%s" % (CV, table[tok][2]), construct=CV + "::validator_list", text="wrapper %s" % tok)
+
+
+def _total_validators(chk, repo, cv):
+    """TOTAL-12: a validator never falls off its end, and answers None only for an absent value -- every other path returns a
+    converted value or raises (so a deleted `raise` in an error branch cannot turn into a silently accepted None)."""
+    n = 0
+    for name, f in sorted(cv.methods.items()):
+        if not (name.startswith("_validate_type_") or name in ("validate_config_item", "validate_item", "_validate_config", "validate_config",
+                                                                  "_validate_dict", "_validate_dict_or_omap")):
+            continue
+        chk.analysed(f)
+        cfg = f.cfg()
+        preds = [cfg.nodes[p_] for p_ in cfg.nodes[cfg.exit.id].pred]
+        imp = [p_ for p_ in preds if not (p_.kind == "stmt" and isinstance(p_.ast, ast.Return))]
+        n += 1
+        chk.ob("TOTAL-12", "%s never falls off its end (every path returns or raises)" % name, not imp, f.where(),
+               detail="implicit `return None` after line(s) %s: an input that should have been rejected is accepted as None" % [p_.lineno for p_ in imp],
+               construct=f.ident, text="implicit return in " + name)
+        if not name.startswith("_validate_type_"):
+            continue
+        for r in [p_ for p_ in preds if p_.kind == "stmt" and isinstance(p_.ast, ast.Return)]:
+            v = r.ast.value
+            if v is None or (isinstance(v, ast.Constant) and v.value is None):
+                g = cfg.guards_at(r.id)
+                ok = g.get("item is None") is True or g.get("item is not None") is False or g.get("item") is False or g.get("not item") is True
+                chk.ob("TOTAL-12", "%s answers None only for an absent value" % name, ok, f.where(r.ast), detail="guards %s" % sorted(g.items()),
+                       construct=f.ident, text="None result in " + name)
+    chk.floor("TOTAL-12", 30)
+    # sibling agreement of the template validators: the raw item's type is asserted before a template is built from it
+    for name, f in sorted(cv.methods.items()):
+        if not name.startswith("_validate_type_template_") or name.endswith("_str"):
+            continue
+        cfg = f.cfg()
+        builds = [n_ for n_, c in cfg.calls_named("build_int_template", "build_float_template", "build_bool_template", "build_raw_template")]
+        guards = [n_.id for n_, c in cfg.calls_named("_assert_int_float_template") if c.args and src(c.args[0]) == "item"] + \
+                 [b.id for b in cfg.nodes if b.kind == "branch" and "isinstance(item," in src(b.ast).replace(" ", "").replace("item,(", "item,(")]
+        for b_ in builds:
+            w = cfg.path_avoiding(cfg.entry.id, [b_.id], guards, ignore_exc=True)
+            chk.ob("SIB-6", "%s asserts the type of the raw value before building the template (like its siblings)" % name, bool(guards) and w is None,
+                   f.where(b_.ast), path=cfg.fmt_path(w, CV) if w else None, construct=f.ident, text="template built from unchecked value in " + name)
 
 
 def _fold_mult(e):
@@ -520,6 +562,8 @@ def battery():
         M("twin: merge via dict unpack kept order", CV, "        spec_list = [config_spec]\n", "        spec_list = [config_spec]\n        assert spec_list\n", None),
         M("twin: suffix order MSEC first", UF, "        if time_string.endswith('MS'):\n            return int(time_string[:-2])\n\n        if time_string.endswith('MSEC'):\n            return int(time_string[:-4])\n", "        if time_string.endswith('MSEC'):\n            return int(time_string[:-4])\n\n        if time_string.endswith('MS'):\n            return int(time_string[:-2])\n", None),
         M("twin: new spec entry", Y, "    level_x: single|int|0", "    level_x: single|int|0\n    level_w: single|float(0,1)|0.5", None),
+        M("unconvertible bool accepted as None", CV, "        raise self.validation_error(item, validation_failure_info, \"Cannot convert value to boolean.\", 13)\n", "", "TOTAL-12"),
+        M("template_ms accepts any type", CV, "        self._assert_int_float_template(item, validation_failure_info)\n\n        # try to convert to int. if we fail it will be a template", "        # try to convert to int. if we fail it will be a template", "SIB-6"),
     ]
 
 
